@@ -21,7 +21,7 @@ LEVEL = "exploration"
 RULE = (
     "case = generated configuration file with 1..4 servers: command = a per-case copy of a witness MCP server script (absolute path, possibly in a directory whose name has a space / non-ASCII; or a bare name found on the configured PATH while a same-named decoy sits on the host's PATH), "
     "args with spaces, quotes, backslashes, Unicode, empty strings, URL-/comment-like text (//, /* */, #); env absent / {} / values with spaces, '=', Unicode; the host's own HOME/TERM/USER/LOGNAME/SHELL set, unset or function-like differently before each entry point; the file rewritten (in place or deleted and recreated) between entry points; timeout absent / int / float / numeric string; extra keys at every level; "
-    "run through three entry points: load_config -> stdio_client -> send_initialize; __main__.test_server; run_command with a recording command; plus malformed classes (missing file, invalid JSON: "
+    "run through three entry points (round 8: the connectivity test also with --verbose): load_config -> stdio_client -> send_initialize; __main__.test_server; run_command with a recording command; plus malformed classes (missing file, invalid JSON: "
     "truncated / trailing comma / empty, unknown server name); oracle: the witness child records argv, environ and every received line: argv == configured args, environment == what a control launch "
     "with the configured environment, or with the documented default computed independently of the library from the host's variables at that moment, shows, it saw initialize then notifications/initialized, timeout is float or None, test_server is True, run_command hands the command one "
     "stream pair per configured server; malformed -> FileNotFoundError / JSONDecodeError / ValueError, test_server False, run_command launches nothing and does not raise; "
@@ -231,7 +231,7 @@ def check(case: Dict[str, Any]) -> Outcome:
             return a == "" or any(c in a for c in " \t'\"\\") or any(ord(c) > 0x7E for c in a)
 
         out.nontrivial = any(any(has_odd(a) for a in s.get("args", [])) or bool(s.get("env")) for s in servers) or len(servers) > 1 or bool(malformed)
-        out.classes = (f"servers:{len(servers)}", f"malformed:{malformed or 'no'}") + (("env",) if any(s.get("env") for s in servers) else ()) + (("odd-args",) if any(any(has_odd(a) for a in s.get("args", [])) for s in servers) else ())
+        out.classes = (f"servers:{len(servers)}", f"malformed:{malformed or 'no'}") + (("env",) if any(s.get("env") for s in servers) else ()) + (("odd-args",) if any(any(has_odd(a) for a in s.get("args", [])) for s in servers) else ()) + (("connectivity-test-verbose",) if case.get("verbose") else ())
 
         # ------------------------------------------------------------ malformed classes
         if malformed:
@@ -443,14 +443,14 @@ def check(case: Dict[str, Any]) -> Outcome:
             with Silence():
                 try:
                     with transient_spawn_fault(fault):
-                        ok = asyncio.run(M.test_server(path, s["name"]))
+                        ok = asyncio.run(M.test_server(path, s["name"], *([True] if case.get("verbose") else [])))  # (--verbose on the command line)
                 except BaseException as e:  # noqa
                     ok = e
                 if fault and ok is not True:
                     # the connectivity test reported the transient failure; the user runs it again
                     _collect(scripts[s["name"]])
                     try:
-                        ok = asyncio.run(M.test_server(path, s["name"]))
+                        ok = asyncio.run(M.test_server(path, s["name"], *([True] if case.get("verbose") else [])))  # (--verbose on the command line)
                     except BaseException as e:  # noqa
                         ok = e
             recs = _collect(scripts[s["name"]])
@@ -579,6 +579,8 @@ def cases(draw):
         hv = st.dictionaries(st.sampled_from(["HOME", "TERM", "USER", "LOGNAME", "SHELL"]),
                              st.sampled_from(["/tmp/vp home \u00e9", "/nonexistent", "dumb", "vt100", "vp-user", "\u00fc", "/bin/sh", None, "() { :; }; echo x"]), max_size=3)
         case["host_env"] = [draw(hv), draw(hv), draw(hv)]
+    if draw(st.integers(0, 2)) == 0:
+        case["verbose"] = True  # the connectivity test run with --verbose
     if draw(st.integers(0, 3)) == 0:
         case["rewrite"] = draw(st.sampled_from(["in-place", "recreate"]))
     if draw(st.integers(0, 5)) == 0:
@@ -638,6 +640,9 @@ def job_spawn_fault(col: Collector, seed: int, tier: str, shard: int) -> None:
     servers = [{"name": "no-env", "args": ["--stdio"], "extra": {}}, {"name": "empty-env", "env": {}, "extra": {}}, {"name": "own-env", "env": {"VP_TOKEN": "s3cret", "PATH": "/usr/bin:/bin"}, "extra": {}}]
     case = {"servers": servers, "dirname": "d", "top_extra": {}, "ensure_ascii": True, "spawn_fault": names[shard % len(names)],
             "host_env": [{"HOME": "/tmp/vp home"}, {}, {}]}
+    col.record(case, check(case))
+    # the same three kinds of server through the connectivity test run with --verbose (no fault)
+    case = {"servers": servers, "dirname": "d", "top_extra": {}, "ensure_ascii": True, "verbose": True, "host_env": [{}, {"HOME": "/tmp/vp home", "TERM": "dumb"}, {}]}
     col.record(case, check(case))
     if shard == 0:
         col.exhaustive_parts.append("first spawn attempt refused with EAGAIN / ENOMEM / ETXTBSY / EMFILE x servers with env absent / empty / set, through the loader and the connectivity test")
